@@ -141,6 +141,17 @@ def run_check(prop, tier, seed, replay=None):
         return ('property: %s\nkind: %s\nprofile: %s\ncase: %s\nimplementation: %s\nmirror-model: %s\n'
                 'specification: %s\n%s' % (prop.id, kind, p, c, a, m, s, note))
 
+    # disagreements with the mirror that a recorded finding explains (the mirror has the property, the code does not)
+    if hasattr(prop, 'known_case'):
+        kept = []
+        for item in corr_breaks:
+            lab = prop.known_case(item[0])
+            if lab:
+                known_lines.append(lab)
+            else:
+                kept.append(item)
+        corr_breaks = kept
+
     # ---- verdicts
     new_fail = []
     for item in prop_fails:
